@@ -122,7 +122,7 @@ func xPI(target string, attrs []xAttrSpec) xCons {
 
 var xAttrPool = []xAttrSpec{
 	{"b", `"c"`}, {"b", `'c'`}, {"b", `"c'd"`}, {"b", `'c"d'`}, {"b", `"i>j"`}, {"b", `'l/m?n'`}, {"b", `"/>"`}, {"b", `'?>'`}, {"b", "\"c\td\ne\rf\""},
-	{"x:y", `"z"`}, {"b", `""`}, {"b", `"a=b"`}, {"b", `"<"`}, {"b-c.d_e", `"1"`},
+	{"x:y", `"z"`}, {"b", `""`}, {"b", `"a=b"`}, {"b", `"<"`}, {"b-c.d_e", `"1"`}, {"voilà", `"à"`}, {"Århus", `'丅'`},
 }
 
 func xChildPool() []xCons {
@@ -134,6 +134,10 @@ func xChildPool() []xCons {
 		xPI("p", nil), xPI("p", []xAttrSpec{{"q", ""}}), xPI("p", []xAttrSpec{{"d", `'f'`}}), xPI("xml-stylesheet", []xAttrSpec{{"href", `"a?b>c"`}}), xPI("php", []xAttrSpec{{"echo", ""}, {"1", ""}, {">", ""}, {"0;", ""}}))
 	for _, a := range xAttrPool {
 		p = append(p, xStart("f", []xAttrSpec{a}, [4]string{}, "/>"))
+	}
+	// names with letters whose UTF-8 encoding has the continuation bytes 0x85 and 0xA0 (white space in Latin-1 and Unicode)
+	for _, n := range []string{"voilà", "Århus", "丅", "naïve", "π"} {
+		p = append(p, xStart(n, nil, [4]string{}, "/>"), xConcat(xStart(n, []xAttrSpec{{"id", `"7"`}}, [4]string{}, ">"), xEnd(n, "")))
 	}
 	p = append(p, xStart("f", nil, [4]string{}, "/>"), xStart("f", []xAttrSpec{xAttrPool[0], {"d", `'e'`}}, [4]string{}, "/>"),
 		xStart("f", []xAttrSpec{xAttrPool[4], {"d", `"x"`}, {"e", `'/>'`}}, [4]string{}, "/>"))
